@@ -81,6 +81,10 @@ func genC01(seed int64, tier string) *Scenario {
 	r := rand.New(rand.NewSource(seed))
 	sc := &Scenario{Prop: "C01", Seed: seed, Knobs: map[string]interface{}{}}
 	sc.Sched = RandomSched(r)
+	if r.Intn(3) == 0 {
+		// a small live-analysis cache: the eviction path runs with a handful of edited documents
+		sc.Sched.Knobs = map[string]int{"lru": 1 + r.Intn(3)}
+	}
 	g := newLuaGen(r)
 	nfiles := 1 + r.Intn(9)
 	var names []string
@@ -408,7 +412,7 @@ func checkC01(t *testing.T, sc *Scenario) *Verdict {
 		}
 		return v.violation("swallowed-panic", sig, res.Detail, replayForm())
 	case OutDeadlock:
-		return v.violation("deadlock", firstLine(res.Detail), res.Detail, replayForm())
+		return v.violation("deadlock", gidRe.ReplaceAllString(firstLine(res.Detail), ""), res.Detail, replayForm())
 	case OutStuck:
 		d := res.Detail
 		if i := strings.Index(d, " unanswered"); i > 0 {
